@@ -1592,7 +1592,7 @@ def _handle_unwind_stage(in_collection, unused_database, options):
             if index is not None:
                 # the item of the copy, so that no output document shares it with the input
                 field_item = helpers.get_value_by_dot(new_doc, path)[index]
-            new_doc = helpers.set_value_by_dot(new_doc, path, field_item)
+                new_doc = helpers.set_value_by_dot(new_doc, path, field_item)
             if include_array_index:
                 new_doc = _set_index(new_doc, index)
             unwound_collection.append(new_doc)
